@@ -300,7 +300,15 @@ func runHarness(prog *ssa.Program, fn *ssa.Function, cfg HarnessCfg, workers int
 	return h.res
 }
 
+// findFunc resolves a redirect target: a function of the harness's package, or "import/path.Func".
 func findFunc(prog *ssa.Program, pkg *ssa.Package, name string) *ssa.Function {
+	if i := strings.LastIndex(name, "."); i > 0 {
+		if p := prog.ImportedPackage(name[:i]); p != nil {
+			ensureBuilt(p)
+			return p.Func(name[i+1:])
+		}
+		return nil
+	}
 	if f := pkg.Func(name); f != nil {
 		return f
 	}
